@@ -49,7 +49,7 @@ def case_(draw, tier, backends, Nmax, Jmax):
     kind = draw(st.sampled_from(["invariant", "invariant", "sensitive"]))
     orders = (0, 1, 2) if kind == "invariant" else (-1, 0, 1, 2)
     N = draw(st.one_of(st.integers(16, 120), gens.loguniform_int(16, Nmax)))
-    cfg = draw(gens.analysis_config(N, backends=(backends[0],), orders=orders, Jmax=Jmax, Kmax=20))
+    cfg = draw(gens.analysis_config(N, backends=(backends[0],), orders=orders, Jmax=Jmax, Kmax=20, custom=True))
     mode = draw(st.sampled_from(["auto", "csd", "csd"]))
     case = {"N": N, "mode": mode, "cfg": cfg, "fs": draw(st.sampled_from([1.0, 10.0, 0.37])), "kind": kind,
             "trend": draw(trend(cfg["order"], kind)), "backends": list(backends),
@@ -155,6 +155,8 @@ def oracle(case):
         labels.append("sensitive:change-visible")
     if case["kind"] == "invariant" and nontrivial:
         labels.append("invariant:big-trend")
+    if cfg.get("sched_as") == "custom" and case["how"] == "full":
+        labels.append("custom-scheduler:" + cfg["custom"]["style"])
     return Res(viol, nontrivial, labels)
 
 
